@@ -2,7 +2,7 @@
 from models.find import FindOracle
 from sim import single
 from sim.core import RES
-from .common import COMPONENTS, ASSUMPTIONS, rng  # noqa: F401
+from .common import COMPONENTS, ASSUMPTIONS, rng, add_send_errors  # noqa: F401
 
 ID = "C13"
 LEVEL = "exploration"
@@ -139,6 +139,7 @@ def gen(seed, idx, tier):
         if aligned and disturbed:
             il = instants(plan, horizon)
     plan["until"] = round(max(6.0, t + 4.0), 6)
+    add_send_errors(cfg, seed, ID, idx)
     return plan
 
 
